@@ -291,6 +291,10 @@ func report(w *World, cfg runConfig, units []*UnitResult, obls []*Obligation, bo
 	}
 	ev := evidence{PropertyID: cfg.prop, Tier: cfg.tier, Seed: cfg.seed, Level: "proof", Coverage: cov, Assumptions: assumptions, WallS: round3(wall), Violations: violations}
 	data, _ := json.MarshalIndent(ev, "", " ")
+	if repoRoot != "/repo" {
+		// a run against a scratch copy (tools/selftest.sh): never evidence
+		return exit
+	}
 	os.MkdirAll("/verif/evidence", 0o755)
 	if err := os.WriteFile(filepath.Join("/verif/evidence", cfg.prop+".json"), data, 0o644); err != nil {
 		fmt.Println("CHECK-ERROR: cannot write evidence:", err)
